@@ -140,6 +140,28 @@ def run_c09_reuse(ctx, binary=None):
     return rrecs + precs + precs1
 
 
+def run_c16_reuse(ctx, binary=None):
+    """C16 on the reuse transport's retry path: every frame that reaches a connection -- first attempt or retry
+    after a stale pooled connection -- is exactly the 2-byte length + the call's own query (the trace spec's
+    WriteReq carries wok = 'the bytes written equal the framed query of call c'; the harness poisons every
+    buffer handed back through pool.ReleaseBuf, so a retry that re-sends a released buffer writes garbage)."""
+    T = ctx.thorough()
+    scripts = [s for s in pl.reuse_scenarios(T) if s["name"].startswith("stale") and not s["name"].endswith("silence")
+               and s["name"][5] in "123"]
+    n = 300 if T else 40
+    beh = [b for b in pl.gen_behaviours(ctx, "reuse", "ReuseConn_gen_c08.cfg", n, 150)
+           if sum(1 for s in b["steps"] if s["a"] == "WriteReq") >= 3]
+    scripts += [pl.beh_to_script("reuse", b, "tlc-%d" % i) for i, b in enumerate(beh)]
+    ctx.assumptions += [
+        "reuse retries: the frame written on every attempt is compared with the call's framed query inside the driver "
+        "(WriteReq.wok); released pool buffers are overwritten by the harness before they are handed out again",
+    ]
+    recs, rej = pl.run_scripts(ctx, "reuse", scripts, binary, label="reuse C16 (frames on retries)")
+    pl.dead_driver(ctx, recs, scripts, "reuse C16")
+    ctx.cov["reuse_retry_frames"] = {"scripts": len(scripts), "ran": sum(1 for r in recs if not r.get("skipped"))}
+    return recs
+
+
 def run(ctx):
     """stand-alone entry (bin/check pool_extra <tier>)"""
     if ctx.replay:
